@@ -33,7 +33,8 @@ def run_demo(repo, src, target):
         if rc != 0:
             rc, out = sh("patch -p1 < %s" % demo_patch, repo)
         results.append(("apply demo.patch", rc))
-    if os.path.exists(demo_rs):
+    inside = os.path.exists(demo_patch) and os.path.exists(demo_rs) and "use super::" in open(demo_rs).read()
+    if os.path.exists(demo_rs) and not inside:   # (a demo that lives inside a source file is carried by demo.patch alone)
         os.makedirs(os.path.join(repo, "tests"), exist_ok=True)
         shutil.copy(demo_rs, os.path.join(repo, "tests", "seeded_demo.rs"))
     rc, out = sh("cargo test --offline --no-fail-fast 2>&1 | grep -E '^test result|FAILED|panicked' | head -20", repo,
